@@ -436,7 +436,7 @@ pub fn c19(tier: Tier) -> i32 {
         let mut fams = crate::c_inputs::families(format, tier);
         // class strings two shorter than the conformance sweeps (four serialisations per batch)
         if let crate::c_inputs::Family::Class { maxlen, .. } = &mut fams[0] {
-            *maxlen -= if tier == Tier::Quick { 2 } else { 3 };
+            *maxlen -= 2;
         }
         if let crate::c_inputs::Family::Struct(s) = &mut fams[1] {
             s.max_lines -= if tier == Tier::Quick { 1 } else { 2 };
